@@ -497,6 +497,7 @@ impl SubRule {
             #[cfg(asca_verif)] crate::verif::tick(19);
             *state_index = back_state;
             if self.match_opt_states(opt_states, word, pos, forwards)? {
+                let after_opt_pos = *pos;
                 let mut m = true;
                 while *state_index < states.len() {
                     #[cfg(asca_verif)] crate::verif::tick(20);
@@ -510,6 +511,8 @@ impl SubRule {
                     return Ok(true)
                 } else {
                     index += 1;
+                    // the rest of the environment may have consumed segments before it failed: go back to just after this repetition
+                    *pos = after_opt_pos;
                     *self.alphas.borrow_mut() = back_alphas.clone();
                     *self.variables.borrow_mut() = back_varlbs.clone();
                     continue;
